@@ -11,6 +11,7 @@ RULE = ("each case runs propka.run.single on a structure (whole repository prote
         "file against the API values. Non-trivial: >= 1 printed group has determinants of >= 2 types; "
         "distinct = distinct (structure digest, options, parameters).")
 RULE = RULE + " Round 8: parameter files are written with indented / tab-separated / commented keyword lines; every group of the average that is due a row must have one; the file of each single conformation (always under -d and with several conformations, else 30 %) is compared with that conformation's record."
+RULE = RULE + ' Rounds 10-12: directed models in which one GLU / GLN is the same-type mutant (ASP / ASN) in one model.'
 ASSUMPTIONS = ["printed numbers are compared with |printed - value| <= 0.005 + 1e-9",
                "groups with identical printed labels are matched in order of appearance"]
 TIMEOUT = {"quick": 1800, "thorough": 10800}
